@@ -59,7 +59,7 @@ def run(tier: str) -> int:
                "durations (< period, alternating) x stop (none / dispose at instant T incl. tick instants / self-dispose at "
                "call K / raise at call K), enumerated by TLC on Periodic.tla; each performed on the three virtual-time "
                "schedulers bare and under CatchScheduler, and on TimeoutScheduler / NewThreadScheduler / EventLoopScheduler / "
-               "CatchScheduler(TimeoutScheduler) on one thread under a controlled clock; non-trivial = the scenario stops "
+               "AsyncIOScheduler / CatchScheduler(TimeoutScheduler) on one thread under a controlled clock; non-trivial = the scenario stops "
                "(dispose, self-dispose or raise) or the action takes time")
     res = tlc.run("Periodic", tlc.cfg_text(consts, spec="Spec", invariants=pc.INVS + ["Export"], properties=["Terminates"]),
                   workers=1, timeout=3000, allow_violation=False)
@@ -117,7 +117,7 @@ def replay(rec) -> int:
 
 META = {
     'technique': 'TLC-enumerated periodic scenarios of Periodic.tla (self-rescheduling machine checked against a reference tick function) replayed on the real periodic schedulers and on interval/timer',
-    'level': 'TLC checks that the rescheduling machine calls the action exactly at start+first+(k-1)*period with the threaded state, never after dispose/self-dispose/raise, and agrees with the reference counts (a dispose coinciding with a tick may go either way); every scenario is exported and performed on VirtualTimeScheduler/TestScheduler/HistoricalScheduler (bare and under CatchScheduler, exact instants), on reactivex.interval/timer (values 0,1,2,... at those instants), and on TimeoutScheduler/NewThreadScheduler/EventLoopScheduler driven on one thread under a controlled clock (once per period). Exhaustive for the stated bounds; thread interleavings of the real-time schedulers are not covered here.',
-    'note': "TLC 1.8; codec and one-thread discrete-event shims of props/misc_c35.py (Timer, Event.wait, Condition.wait, default_now); virtual-time schedulers (C28)",
+    'level': 'TLC checks that the rescheduling machine calls the action exactly at start+first+(k-1)*period with the threaded state, never after dispose/self-dispose/raise, and agrees with the reference counts (a dispose coinciding with a tick may go either way); every scenario is exported and performed on VirtualTimeScheduler/TestScheduler/HistoricalScheduler (bare and under CatchScheduler, exact instants), on reactivex.interval/timer (values 0,1,2,... at those instants), and on TimeoutScheduler/NewThreadScheduler/EventLoopScheduler/AsyncIOScheduler driven on one thread under a controlled clock (once per period). Exhaustive for the stated bounds; thread interleavings of the real-time schedulers are not covered here.',
+    'note': "TLC 1.8; codec and one-thread discrete-event shims of props/misc_c35.py (Timer, Event.wait, Condition.wait, loop.call_later, default_now); virtual-time schedulers (C28)",
     'ref': 'DESIGN.md 6 C35',
 }
